@@ -11,6 +11,7 @@
 import AdaptixModel.Types.HintSpec
 import AdaptixProofs.Lemmas.NormDen
 import AdaptixProofs.Lemmas.NormRespects
+import AdaptixProofs.Lemmas.NormIdem
 
 namespace Adaptix.Types.C15
 
@@ -109,6 +110,19 @@ theorem implicit_params_tuple_type (al : Bool) :
 theorem union_single (hK : DistinctOrderKeys W) (o : Bool) (x : Hint α) (hx : TopLitOK x) :
     normalize W (.union o [x]) = normalize W x :=
   normalize_respects W hK (.unionSingle o x hx)
+
+/-- **Idempotence.**  Reading the normal form of a hint back as a hint
+    (`Union[...]` of the members, `Literal[...]` of the values, `origin[args]`)
+    and normalising again returns the same normal form.  `TypingBuilt`: every
+    `Literal` in the hint has its values de-duplicated, as `typing` builds it. -/
+theorem idempotent (hK : DistinctOrderKeys W) (h : Hint α) (hb : TypingBuilt h) :
+    normalize W (embed (normalize W h)) = normalize W h :=
+  (idem_normalize W hK h hb).1
+
+/-- ... and every member of a normalised union is itself a fixed point -/
+theorem idempotent_members (hK : DistinctOrderKeys W) (h : Hint α) (hb : TypingBuilt h) (a : Norm α)
+    (ha : a ∈ alts (normalize W h)) : normalize W (embed a) = a :=
+  ((idem_normalize W hK h hb).2 a ha).1
 
 /-- no nested unions: the members of a normalised union are not unions, are
     pairwise different and are at least two -/
